@@ -70,6 +70,7 @@ structure ReqInfo where
 structure S where
   cfg : Cfg := ⟨[], 0⟩
   custom : List (String × String) := []   -- WithDecoder registrations of the current server
+  eh : Option (Nat → Nat) := none          -- WithErrorHandler: status the caller's handler answers for the status it is handed
   snap : Proc := Proc.clean               -- process state when the current server was built
   proc : Proc := Proc.clean               -- process state now
   ct : String := ""
@@ -119,7 +120,12 @@ def handler : Handler S where
         -- ToClient fails iff a compressed type has no writer
         let ok := !isCompressed ct || (assoc Gen.Compression.writers ct).isSome
         -- a new server in the same process: it sees what earlier constructions left behind, and leaves its own trace
-        ({ s with cfg := cfg, custom := custom, snap := s.proc, proc := s.proc.construct ⟨cfg, custom⟩, ct := ct, clientOk := ok,
+        -- the harness's error handler answers (status it was handed) + eh
+        let eh : Option (Nat → Nat) := match kvNat rest "eh" with
+          | some 0 => none
+          | some d => some (fun st => st + d)
+          | none => none
+        ({ s with cfg := cfg, custom := custom, eh := eh, snap := s.proc, proc := s.proc.construct ⟨cfg, custom⟩, ct := ct, clientOk := ok,
                   cur := none },
          [if ok then "obs cfg client=ok" else "obs cfg client=err"])
       | _, _, _ => (s, ["obs bad-op"])
@@ -153,7 +159,9 @@ def handler : Handler S where
           let haveDec := match decIn with | .missing => false | _ => true
           -- the library-only input must be present exactly when the model needs it and the decoder is reached
           let srv : Server := ⟨s.cfg, s.custom⟩
-          let out := serveP s.snap codec srv rq
+          let out := match serveP s.snap codec srv rq with
+            | .rejected st => Outcome.rejected (match s.eh with | some f => f st | none => st)   -- = `serveE`
+            | o => o
           let reached := match decoderFor srv rq.encoding with
             | some (.lib _) => true
             | _ => false
